@@ -76,4 +76,142 @@ theorem pos_consts :
     offsetRecovered = 4294967285 ∧ offsetMax = 4294967284 ∧ lineMax = 262143 ∧ colMax = 16383 ∧ colBitSize = 14 := by
   decide +kernel
 
+/-! ### Part B — generic theorems (every schema, every value, every JSON document) -/
+
+/-- `NewPos(p.Offset(), p.Line(), p.Col()) = p` for every position that is not one of the reserved
+    invalid offsets (18 bits of line, 14 bits of column, offsets up to 2^32 - 12). -/
+theorem pos_roundtrip (p : Pos) (hr : p.inRange = true) (ho : p.offs ≤ offsetMax) :
+    newPos p.offset p.line p.col = p :=
+  newPos_parts p hr ho
+
+/-- The clamping limits of `NewPos`: the offset saturates at `offsetMax` (so `NewPos` never builds
+    a recovered position), a line above 262143 or a column above 16383 is stored as 0. -/
+theorem newPos_clamps (o l c : Nat) :
+    (newPos o l c).offs ≤ offsetMax ∧ newPos o l c ≠ Pos.recovered ∧
+      (lineMax < l → (newPos o l c).line = 0) ∧ (colMax < c → (newPos o l c).col = 0) := by
+  refine ⟨newPos_offs_le o l c, ?_, newPos_line_overflow o l c, newPos_col_overflow o l c⟩
+  intro e
+  have h := newPos_offs_le o l c
+  rw [e] at h
+  revert h; decide
+
+/-- `decodePos` inverts `encodePos` on every valid position. -/
+theorem decodePos_encodePos (p : Pos) (hr : p.inRange = true) (hv : p.isValid = true) :
+    ∃ j, encPos p = some j ∧ decodePos j = .ok p :=
+  decodePos_encPos p hr hv
+
+/-- Decode never reaches a reflect call that panics — for EVERY JSON value and EVERY target type
+    (`val.Addr()` is only called on addressable values; every `Set*` is preceded by its check). -/
+theorem decode_no_panic (σ : Schema) (τ : GoType) (j : J) :
+    decodeValue σ true τ j ≠ .panic ∧ decodeRoot σ j ≠ .panic :=
+  ⟨decodeValue_no_panic σ j τ, decodeRoot_no_panic σ j⟩
+
+/-- Decode always returns a value or an error. -/
+theorem decode_total (σ : Schema) (j : J) :
+    (∃ v, decodeRoot σ j = .ok v) ∨ (∃ e, decodeRoot σ j = .err e) := by
+  cases h : decodeRoot σ j with
+  | ok v => exact Or.inl ⟨v, rfl⟩
+  | err e => exact Or.inr ⟨e, rfl⟩
+  | panic => exact absurd h (decodeRoot_no_panic σ j)
+
+/-- Value level, any static type: a JsonWF value either encodes to nothing and is the zero value
+    of its type up to canonical form, or encodes to a document that decodes to its canonical form;
+    `Encode` does not panic. -/
+theorem decode_encode_value (σ : Schema) (τ : GoType) (v : Val) (h : wf σ τ v = true)
+    (hp : ∀ p, v ≠ .pos p) :
+    (∃ tn, encodeValue σ v = .res none tn ∧ zero τ = canon v) ∨
+    (∃ j tn, encodeValue σ v = .res (some j) tn ∧ decodeValue σ true τ j = .ok (canon v)) :=
+  roundV σ v τ h hp
+
+/-- The full statement without the hypothesis on positions: any two `uint32`s as a position.
+    It is FALSE of the model and of the code (`decode_encode_statement_false`). -/
+def decode_encode_statement : Prop :=
+  ∀ (σ : Schema) (v : Val), wfAnyPos σ (.iface "Node") (.iface v) = true →
+    ∃ j, encodeRoot σ v = .val j ∧ decodeRoot σ j = .ok (canon (.iface v))
+
+/-- `Decode(Encode(node))` is the node with recovered positions cleared (and empty slices nil, which
+    `Encode` cannot tell from nil slices), for every schema and every JsonWF root; `Encode` does not
+    panic.  The extra hypothesis w.r.t. `decode_encode_statement` is exactly `posWF` on every
+    position: valid, zero or recovered. -/
+theorem decode_encode_partial (σ : Schema) (v : Val) (h : wf σ (.iface "Node") (.iface v) = true) :
+    ∃ j, encodeRoot σ v = .val j ∧ decodeRoot σ j = .ok (canon (.iface v)) :=
+  round_root σ v h
+
+/-- …and with no empty-but-non-nil slice the result is literally `dropRecovered`. -/
+theorem decode_encode (σ : Schema) (v : Val) (h : wf σ (.iface "Node") (.iface v) = true)
+    (hne : noEmptySlice v = true) :
+    ∃ j, encodeRoot σ v = .val j ∧ decodeRoot σ j = .ok (dropRecovered (.iface v)) := by
+  obtain ⟨j, h1, h2⟩ := round_root σ v h
+  refine ⟨j, h1, ?_⟩
+  rw [h2, canon_eq_dropRecovered (.iface v) (by simpa only [noEmptySlice] using hne)]
+
+/-- Re-encoding the decoded tree gives the identical document (same keys in the same order, same
+    values), for every `Pos()`/`End()` function `ann` whose encoded results are stable under the
+    round trip (`peStable`: the assumption about the methods of nodes.go, checked per tree by the
+    harness through byte equality). -/
+theorem encode_decode_encode (σ : Schema) (ann : Ann) (t : Val)
+    (h : wf σ (.iface "Node") (.iface (annotate ann t)) = true) (hs : peStable ann t) :
+    ∃ j d, encodeRoot σ (annotate ann t) = .val j ∧ decodeRoot σ j = .ok (.iface d) ∧
+      encodeRoot σ (annotate ann d) = .val j := by
+  obtain ⟨j, h1, h2⟩ := round_root σ (annotate ann t) h
+  refine ⟨j, canon t, h1, ?_, ?_⟩
+  · rw [h2]; simp only [canon, canon_annotate]
+  · rw [reencode_root σ ann t hs, h1]
+
+/-! ### Part C — the real schema -/
+
+/-- a literal at byte offset 278534 of an input whose line and column counters both overflowed -/
+def litOverflowed : Val :=
+  .ptr (.struct "Lit" (some (⟨278534, 0⟩, ⟨278538, 0⟩))
+    [("ValuePos", .pos ⟨278534, 0⟩), ("ValueEnd", .pos ⟨278538, 0⟩), ("Value", .str [101, 99, 104, 111])])
+
+/-- The known finding C15-invalid-pos-dropped on the model of the real schema: the literal is well
+    typed, its positions are neither valid, zero nor recovered, `Encode` drops them and `Decode`
+    returns a tree that differs from the original (offset 278534 became 0). -/
+theorem invalid_pos_not_roundtrip :
+    wfAnyPos real (.iface "Node") (.iface litOverflowed) = true ∧
+      wf real (.iface "Node") (.iface litOverflowed) = false ∧
+      (match encodeRoot real litOverflowed with
+       | .val j =>
+         match decodeRoot real j with
+         | .ok d => beqVal d (canon (.iface litOverflowed)) || beqVal d (dropRecovered (.iface litOverflowed))
+         | _ => true
+       | .panic => true) = false := by
+  decide +kernel
+
+theorem decode_encode_statement_false : ¬ decode_encode_statement := by
+  intro hst
+  obtain ⟨h1, _, h3⟩ := invalid_pos_not_roundtrip
+  obtain ⟨j, he, hd⟩ := hst real litOverflowed h1
+  rw [he] at h3
+  simp only [hd, beqVal_refl, Bool.true_or] at h3
+  contradiction
+
+/-- A string that is not valid UTF-8 does not survive `encoding/json` (outside the property: the
+    parser rejects such input; shown for hand-built trees and partial trees next to a parse error). -/
+theorem invalid_utf8_not_roundtrip :
+    (match encodeRoot real (.ptr (.struct "Lit" none [("ValuePos", .pos Pos.zero), ("ValueEnd", .pos Pos.zero), ("Value", .str [255])])) with
+     | .val j =>
+       match decodeRoot real j with
+       | .ok d => beqVal d (.iface (.ptr (.struct "Lit" none [("ValuePos", .pos Pos.zero), ("ValueEnd", .pos Pos.zero), ("Value", .str [0xEF, 0xBF, 0xBD])])))
+       | _ => false
+     | .panic => false) = true := by
+  decide +kernel
+
+/-- The round trip for the code as it is now: every JsonWF tree over the current node schema. -/
+theorem decode_encode_real (v : Val) (h : wf real (.iface "Node") (.iface v) = true) :
+    ∃ j, encodeRoot real v = .val j ∧ decodeRoot real j = .ok (canon (.iface v)) :=
+  decode_encode_partial real v h
+
+/-- Non-vacuity: a small parsed tree (`echo`) is JsonWF in the real schema, and its round trip,
+    evaluated, is the tree itself. -/
+example :
+    wf real (.iface "Node") (.iface (.ptr (.struct "Lit" (some (⟨0, 16385⟩, ⟨4, 16389⟩))
+      [("ValuePos", .pos ⟨0, 16385⟩), ("ValueEnd", .pos ⟨4, 16389⟩), ("Value", .str [101, 99, 104, 111])]))) = true := by
+  decide +kernel
+
+/-- Non-vacuity of the operator condition in JsonWF: `&&` as a BinCmdOperator. -/
+example : real.unm "BinCmdOperator" (real.tokStr 11) = some 11 ∧ real.tokStr 11 = [38, 38] := by
+  decide +kernel
+
 end ShVerif.C15
